@@ -202,6 +202,19 @@ check("C17",
       "text raises.",
       AMP_NOTE, "DESIGN.md section 5, C17")
 
+check("C18",
+      "TLA+ definition of the Bose-symmetrised permutations (Perms) and of the expected emission of one amplitude "
+      "(spec/AmpEmit.tla: spin-structure table, L rules, vertex order, mass indices); real list_structure and generated "
+      "code of both languages validated by TLC",
+      "Exhaustively for every binary tree shape over every sub-multiset of final states of up to 4 particles in every "
+      "multiplicity pattern, the permutations returned by the real list_structure are judged by TLC to be exactly the "
+      "injective assignments, each once. Random four-body lines over all supported spin structures, both topologies, all four "
+      "lineshape kinds and 4 event types are converted by GooFitChain and GooFitPyChain; the code is read back and TLC judges, "
+      "per permutation, the spin factor(s) with that permutation, one lineshape per resonance with kind, L and mass indices, "
+      "and the declared count; unsupported orders must be refused.",
+      AMP_NOTE + " Spin letter / J of the pool resonances and the table of supported spin structures are reference data.",
+      "DESIGN.md section 5, C18")
+
 ALL = [f"C{i:02d}" for i in range(1, 21)]
 
 
